@@ -14,12 +14,16 @@ namespace WaVerif.C28
 
 abbrev Sess := Nat
 
-inductive Act | begin | read | finish
+/-- `crash`: the session's compilation panics (the backend does that for some legal programs); the caller
+recovers (net/http does, per request) -/
+inductive Act | begin | read | finish | crash
   deriving DecidableEq, Repr
 
 structure Cfg where
   /-- does `Compile` hold a process-wide lock from `SetCurrentModule` to its return? (regenerated fact) -/
   locked : Bool
+  /-- is the lock released by `defer` (i.e. also when the compilation panics)? (regenerated fact) -/
+  deferUnlock : Bool := true
   deriving DecidableEq, Repr
 
 structure St where
@@ -43,6 +47,11 @@ def step (cfg : Cfg) (st : St) (e : Sess × Act) : St :=
     if s ∈ st.active then
       { st with active := st.active.filter (· ≠ s), lock := if st.lock = some s then none else st.lock }
     else st
+  | (s, .crash) =>
+    if s ∈ st.active then
+      { st with active := st.active.filter (· ≠ s),
+                lock := if cfg.deferUnlock && st.lock = some s then none else st.lock }   -- without defer the lock LEAKS
+    else st
 
 def runFrom (cfg : Cfg) (st : St) (sched : List (Sess × Act)) : St := sched.foldl (step cfg) st
 
@@ -59,6 +68,12 @@ def block (b : Sess × Nat) : List (Sess × Act) :=
 
 /-- a serialised (non-overlapping) schedule: whole sessions one after the other -/
 def serialised (blocks : List (Sess × Nat)) : List (Sess × Act) := blocks.flatMap block
+
+/-- a session that begins and panics -/
+def crashOnce : List (Sess × Act) := [(0, .begin), (0, .crash)]
+
+/-- "lock acquired ⇒ released by defer" (the discipline the regenerated facts are checked against) -/
+def lockDiscipline (acquired deferred : Bool) : Bool := !acquired || deferred
 
 /-- the smallest interfering schedule: A begins, B begins, A reads -/
 def witness : List (Sess × Act) := [(0, .begin), (1, .begin), (0, .read)]
